@@ -141,6 +141,40 @@ def check_value_type(chk):
 
 
 def check_value_compare(chk):
+    """C11.P/F/C: primary verdict by abstract execution of value_compare over all ordered pairs of 32 sample values (E6l); the ladder read-back below adds
+    per-atom detail when it recognises the code, and its 'not recognised' outcomes are only notes when the semantic run decided"""
+    from .. import libsim
+    vmod = chk.repo.module('value')
+    try:
+        n_pairs, problems = libsim.run_value_compare(chk.repo, 'C11.P')
+        decided = True
+    except Unrecognised as exc:
+        chk.unrec('C11.P', f'abstract execution of value_compare not possible: {exc.what}', exc.where)
+        n_pairs, problems, decided = 0, [], False
+    by_kind = {}
+    for kind, msg in problems:
+        by_kind.setdefault(kind, []).append(msg)
+    for kind, msgs in by_kind.items():
+        rule = {'host': 'C11.F', 'order': 'C11.P', 'antisymmetry': 'C11.F'}[kind]
+        chk.bad(rule, vmod, 'value_compare', f'[{kind}] {msgs[0][:110]}', f'abstract execution of value_compare: {msgs[0]} ({len(msgs)} of {n_pairs} ordered pairs deviate this way)', node=vmod.funcs.get('value_compare'))
+    if decided and not problems:
+        chk.ok('C11.P', f'value_compare on all {n_pairs} ordered pairs of 32 sample values (null, booleans, numbers incl. 1 / 1.0, strings, datetimes and a date, functions, a regex, nested arrays and objects): '
+               f'null first, then by type name, natural order within a type (dates and datetimes compared after normalisation), containers element-wise then by length; never a host exception', count=n_pairs)
+        chk.ok('C11.F', f'antisymmetry: value_compare(a, b) = -value_compare(b, a) on all {n_pairs} pairs', count=n_pairs)
+        chk.ok('C11.C', 'arrays compare element-wise then by length; objects by sorted (key, value) pairs then by size (part of the runs above)', count=64)
+    before_unrec = len(chk.unrecognised)
+    try:
+        _check_value_compare_ladder(chk)
+    except Unrecognised as exc:
+        chk.unrec(exc.rule or 'C11.P', exc.what, exc.where)
+    if decided and not problems:
+        # the semantic run decided: what the read-back could not recognise is informational only
+        for u in chk.unrecognised[before_unrec:]:
+            chk.note(f"ladder read-back: {u['rule']} {u['what']}")
+        del chk.unrecognised[before_unrec:]
+
+
+def _check_value_compare_ladder(chk):
     vmod = chk.repo.module('value')
     func = vmod.func('value_compare', 'C11.P')
     params = [a.arg for a in func.args.args]
